@@ -36,6 +36,14 @@ def codec_c12(tier, seed):
     return jobs
 
 
+def codec_c11(tier, seed):
+    jobs = []
+    for shape, bits in [([4], 5), ([5, 4], 2), ([1, 4], 3)]:
+        jobs.append(J('roundtrip%s/b%d' % (shape, bits), 'jobs.codec:roundtrip', dict(shape=shape, bits=bits), timeout=400))
+    jobs.append(J('lines_only[4, 4]/b3', 'jobs.codec:lines_only', dict(shape=[4, 4], bits=3), timeout=400))
+    return jobs
+
+
 def codec_c17(tier, seed):
     jobs = [J('decoder_step', 'jobs.codec:decoder_step', dict(), timeout=120),
             J('decoder_step_release', 'jobs.codec:decoder_step', dict(flavour='mir_rel'), timeout=120),
@@ -74,7 +82,7 @@ TREES_QUICK = [
     ('concat[orig2,rawstr2]', CC(O('??'), RS('!!'))),
     ('concat[rawstr2,orig2]', CC(RS('!!'), O('??'))),
     ('concat[orig2,orig2b]', CC(O('??'), O('??', 'b.js'))),
-    ('concat[orig1,orig1 same file]', CC(O('a?'), RS('!'), O('a?'))),
+    ('concat[orig,rawstr1,orig same file same content]', CC(O('a;'), RS('!'), O('a;'))),
     ('nested[[orig2,rawstr1],rawstr1]', CC(BX(CC(O('??'), RS('!'))), RS('!'))),
     ('nested[[rawstr1,orig2],orig1b]', CC(BX(CC(RS('!'), O('??'))), O('?', 'b.js'))),
     ('nested[rawstr1,[orig2,rawstr1]]', CC(RS('!'), BX(CC(O('??'), RS('!'))))),
@@ -95,6 +103,66 @@ TREES_THOROUGH = [
 ]
 
 
+def RP(inner, *reps): return {'kind': 'replace', 'inner': inner, 'replacements': [dict(start=r[0], end=r[1], content=r[2], name=(r[3] if len(r) > 3 else None), enforce=(r[4] if len(r) > 4 else 1)) for r in reps]}
+Q = '?'
+
+REPLACE_QUICK = [
+    ('replace(rawstr ab/cd,[sym del])', RP(RS('ab\ncd'), (Q, Q, ''))),
+    ('replace(rawstr ab/cd,[sym X])', RP(RS('ab\ncd'), (Q, Q, 'X'))),
+    ('replace(rawstr a/b/c,[sym X/])', RP(RS('a\nb\nc'), (Q, Q, 'X\n'))),
+    ('replace(orig a;/b,[sym X/Y])', RP(O('a;\nb'), (Q, Q, 'X\nY'))),
+    ('replace(orig ab;cd;/ef,[sym del])', RP(O('ab;cd;\nef'), (Q, Q, ''))),
+    ('replace(orig ab;cd,[sym X named])', RP(O('ab;cd'), (Q, Q, 'X', 'n'))),
+    ('replace(orig sym3,[sym X])', RP(O('???'), (Q, Q, 'X'))),
+    ('replace(rawstr abcd,[sym X],[sym del])', RP(RS('ab\ncd'), (Q, Q, 'X'), (Q, Q, ''))),
+    ('replace(orig ab;c,[sym X named],[sym Y])', RP(O('ab;c'), (Q, Q, 'X', 'n'), (Q, Q, 'Y'))),
+    ('replace(orig abc,[ins pre/normal/post at sym])', RP(O('abc'), (1, 1, 'N'), (1, 1, 'P', None, 0), (1, 1, 'Q', None, 2), (Q, Q, 'Z'))),
+    ('replace(replace(orig abcdef,[N named n]),[R named r],[sym Y])', RP(RP(O('abcdef'), (3, 4, 'N', 'n')), (0, 1, 'R', 'r'), (Q, Q, 'Y'))),
+    ('replace(concat[orig ab,rawstr c/d],[sym X])', RP(CC(O('ab'), RS('c\nd')), (Q, Q, 'X'))),
+    ('replace(orig ab,[beyond end X],[beyond end /Y])', RP(O('ab'), (5, 7, 'X'), (9, 9, '\nY'))),
+    ('replace(orig abc,[])', RP(O('a;c'))),
+]
+REPLACE_THOROUGH = [
+    ('replace(orig a;//b,[sym del],[sym Y/])', RP(O('a;\n\nb'), (Q, Q, ''), (Q, Q, 'Y\n'))),
+    ('replace(orig sym4,[sym X/])', RP(O('????'), (Q, Q, 'X\n'))),
+    ('replace(rawstr sym4,[sym del])', RP(RS('!!!!'), (Q, Q, ''))),
+    ('replace(orig ab;cd,[sym X named],[sym del],[sym Z])', RP(O('ab;cd'), (Q, Q, 'X', 'n'), (Q, Q, ''), (1, 2, 'Z'))),
+    ('replace(replace(orig ab;cd,[sym N named n]),[sym Y])', RP(RP(O('ab;cd'), (Q, Q, 'N', 'n')), (Q, Q, 'Y'))),
+    ('replace(concat[orig ab named,orig cd b],[sym X],[sym del])', RP(CC(O('a;'), O('c;', 'b.js')), (Q, Q, 'X'), (Q, Q, ''))),
+]
+C13_QUICK = [
+    ('flat:nested[[orig2,rawstr1],rawstr1]', CC(BX(CC(O('??'), RS('!'))), RS('!')), 'flat'),
+    ('flat:nested[rawstr1,[orig2,rawstr1]]', CC(RS('!'), BX(CC(O('??'), RS('!')))), 'flat'),
+    ('flat:nested[[orig1,orig1b],[rawstr1,orig1c]]', CC(BX(CC(O('?'), O('?', 'b.js'))), BX(CC(RS('!'), O('a?', 'c.js')))), 'flat'),
+    ('flat:nested3[[[orig2],rawstr1]]', CC(BX(CC(BX(CC(O('??'))), RS('!')))), 'flat'),
+    ('inner:single[orig3]', CC(O('???')), 'inner'),
+    ('inner:concat[empty,orig2,empty]', CC(RS(''), O('??'), RS('')), 'inner'),
+    ('inner:boxed(orig3)', BX(O('???')), 'inner'),
+    ('inner:replace(orig3,[])', RP(O('???')), 'inner'),
+    ('inner:replace(orig a;b,[empty at sym])', RP(O('a;b'), (Q, Q, '')), 'inner-if-empty'),
+]
+
+
+def replace_jobs(props):
+    def f(tier, seed):
+        jobs = []
+        for t in REPLACE_QUICK:
+            jobs.append(J('tree:' + t[0], 'jobs.streams:tree_job', dict(tree=t[1], props=props), timeout=600))
+        if tier == 'thorough':
+            for t in REPLACE_THOROUGH:
+                jobs.append(J('tree:' + t[0], 'jobs.streams:tree_job', dict(tree=t[1], props=props), required=False, timeout=3000))
+        return jobs
+    return f
+
+
+def c13_jobs(tier, seed):
+    jobs = []
+    for t in C13_QUICK:
+        if t[2] == 'inner-if-empty': continue
+        jobs.append(J('tree:' + t[0], 'jobs.streams:tree_job', dict(tree=t[1], props=['C13'], alt=t[2]), timeout=600))
+    return jobs
+
+
 def tree_jobs(props):
     def f(tier, seed):
         jobs = []
@@ -109,6 +177,7 @@ def tree_jobs(props):
 
 TREE_BOUNDS = {'quick': 'source trees of the catalog lib/props.py:TREES_QUICK - leaves OriginalSource / RawSource / RawStringSource / RawBufferSource with <= 4 symbolic bytes per tree over the alphabet {a ; } space \\n} (raw leaves: {a, \\n}), ConcatSource with <= 3 children, nested boxed ConcatSource to depth 2, empty children; all four (columns x final) streams, source(), map() for both column settings',
                'thorough': 'as quick plus TREES_THOROUGH: <= 5 symbolic bytes, alphabet with { and tab, depth 3, <= 4 children'}
+RTREE_BOUNDS = {k: v + '; ReplaceSource over Raw/Original/ConcatSource/ReplaceSource inners with <= 4 replacements whose start/end are SYMBOLIC (every start <= end <= len+1, i.e. overlapping, nested, touching, beyond the end), contents from {empty, X, X\\n, X\\nY, \\nY}, named and unnamed, all three enforce values (catalog REPLACE_QUICK / REPLACE_THOROUGH)' for k, v in TREE_BOUNDS.items()}
 TREE_OUTSIDE = 'longer texts, other characters than the alphabet classes (line break / brace / blank / other), deeper trees than the catalog (argued by the contract-children induction of DESIGN 4.2, not machine-checked), non-ASCII text'
 TREE_ASSUME = ['symbolic text bytes range over the stated ASCII alphabet; the oracles depend only on character classes, which every explored path is checked to determine',
                'Rope is used by contract "behaves as the flat string" (textmodel.py); the real rope.rs is the subject of C16']
@@ -121,10 +190,15 @@ PROPS = {
                 outside='sequences longer than 3 mappings; simultaneous large values in several fields (argued by field independence, not discharged); deltas >= 2^30',
                 assumptions=['input mapping sequences are strictly sorted by generated position with lines >= 1 and original lines >= 1',
                              'decoder-vs-format jobs assume non-negative running values below 2^31 (as the property states)']),
-    'C01': dict(jobs=[tree_jobs(['C01'])], bounds=TREE_BOUNDS, outside=TREE_OUTSIDE + '; ReplaceSource / CachedSource / SourceMapSource trees until their stages are registered', assumptions=TREE_ASSUME),
-    'C02': dict(jobs=[tree_jobs(['C02'])], bounds=TREE_BOUNDS, outside=TREE_OUTSIDE + '; ReplaceSource / CachedSource / SourceMapSource trees until their stages are registered', assumptions=TREE_ASSUME),
-    'C03': dict(jobs=[tree_jobs(['C03'])], bounds=TREE_BOUNDS, outside=TREE_OUTSIDE, assumptions=TREE_ASSUME),
-    'C04': dict(jobs=[tree_jobs(['C04'])], bounds=TREE_BOUNDS, outside=TREE_OUTSIDE, assumptions=TREE_ASSUME),
+    'C01': dict(jobs=[tree_jobs(['C01']), replace_jobs(['C01'])], bounds=RTREE_BOUNDS, outside=TREE_OUTSIDE + '; CachedSource / SourceMapSource trees until their stages are registered', assumptions=TREE_ASSUME),
+    'C02': dict(jobs=[tree_jobs(['C02']), replace_jobs(['C02'])], bounds=RTREE_BOUNDS, outside=TREE_OUTSIDE + '; CachedSource / SourceMapSource trees until their stages are registered', assumptions=TREE_ASSUME),
+    'C03': dict(jobs=[tree_jobs(['C03']), replace_jobs(['C03'])], bounds=RTREE_BOUNDS, outside=TREE_OUTSIDE, assumptions=TREE_ASSUME),
+    'C04': dict(jobs=[tree_jobs(['C04']), replace_jobs(['C04'])], bounds=RTREE_BOUNDS, outside=TREE_OUTSIDE, assumptions=TREE_ASSUME),
+    'C05': dict(jobs=[replace_jobs(['C05'])], bounds=RTREE_BOUNDS, outside='texts longer than the catalog, more than 4 replacements, non-ASCII texts (engine K covers the real String/Rope code on multi-byte shapes when registered); rope()/buffer()/size() views are C07', assumptions=TREE_ASSUME),
+    'C06': dict(jobs=[tree_jobs(['C06']), replace_jobs(['C06'])], bounds=RTREE_BOUNDS, outside=TREE_OUTSIDE + '; SourceMapSource children with several sources/names until stage S2b is registered', assumptions=TREE_ASSUME),
+    'C11': dict(jobs=[tree_jobs(['C11']), replace_jobs(['C11']), codec_c11], bounds=RTREE_BOUNDS, outside=TREE_OUTSIDE, assumptions=TREE_ASSUME),
+    'C13': dict(jobs=[c13_jobs], bounds={'quick': 'catalog lib/props.py:C13_QUICK: nested boxed ConcatSource groupings (depth <= 3) vs the flat concatenation; single-child / empty-children ConcatSource, boxing and a ReplaceSource without replacements vs the wrapped source; <= 4 symbolic bytes; text, per-position attribution through map() (both column settings) and through the chunk stream, end info', 'thorough': 'as quick'},
+                outside=TREE_OUTSIDE + '; typed nesting flattened by ConcatSource::new/add and CachedSource wrappers until their stages are registered', assumptions=TREE_ASSUME),
     'C17': dict(jobs=[codec_c17],
                 bounds={'quick': 'decoder: inductive step over ONE byte (all 256 values) from every decoder state satisfying the stated invariant - covers strings of every length < 2^31; '
                                  'plus all byte strings of length <= 3 and continuation runs of 12/13/14/20 digits in each of the 5 field slots, debug and release MIR',
